@@ -250,6 +250,50 @@ theorem weak_duality (C : List (List α)) (y w w' r : List α) (l1 l2 c dn : α)
   rw [f1', f3] at f1
   nlinarith [f1, f2', f5]
 
+/-! ### exact KKT conditions make the reported gap vanish -/
+
+theorem normMax_le (v : List α) (M : α) (hM0 : 0 ≤ M) (hM : ∀ x ∈ v, |x| ≤ M) : normMax v ≤ M := by
+  unfold normMax
+  suffices h : ∀ acc, acc ≤ M → v.foldl (fun f x => maxS (absS x) f) acc ≤ M from h 0 hM0
+  induction v with
+  | nil => intro acc h; simpa using h
+  | cons y ys ih =>
+    intro acc h
+    simp only [List.foldl_cons]
+    apply ih (fun x hx => hM x (List.mem_cons_of_mem _ hx))
+    rw [maxS_eq, absS_eq]
+    exact max_le (hM y List.mem_cons_self) h
+
+theorem forall_mem_zipWith {β γ δ : Type} (f : β → γ → δ) (P : δ → Prop) (l1 : List β) (l2 : List γ)
+    (h : ∀ p ∈ List.zip l1 l2, P (f p.1 p.2)) : ∀ x ∈ List.zipWith f l1 l2, P x := by
+  induction l1 generalizing l2 with
+  | nil => simp
+  | cons a l1 ih => cases l2 with
+    | nil => simp
+    | cons b l2 =>
+      intro x hx
+      simp only [List.zipWith_cons_cons, List.mem_cons] at hx
+      rcases hx with rfl | hx
+      · exact h (a, b) (by simp)
+      · exact ih l2 (fun p hp => h p (by simp only [List.zip_cons_cons]; exact List.mem_cons_of_mem _ hp)) x hx
+
+/-- complementary slackness summed over the coordinates: `(Xᵀr)·w = l1‖w‖₁ + l2‖w‖²` -/
+theorem kkt_sum (C : List (List α)) (r w : List α) (l1 l2 : α) (hw : w.length = C.length)
+    (h : ∀ p ∈ List.zip C w, p.2 * (dot p.1 r - p.2 * l2) = l1 * |p.2|) :
+    (List.zipWith (fun c wj => dot c r * wj) C w).sum = l1 * (w.map fun x => |x|).sum + l2 * dot w w := by
+  induction C generalizing w with
+  | nil =>
+    have : w = [] := List.length_eq_zero_iff.mp (by simpa using hw)
+    subst this; simp [dot]
+  | cons c C ih => cases w with
+    | nil => simp at hw
+    | cons wj w =>
+      have h0 := h (c, wj) (by simp)
+      have := ih w (by simpa using hw) (fun p hp => h p (by simp only [List.zip_cons_cons]; exact List.mem_cons_of_mem _ hp))
+      simp only [List.zipWith_cons_cons, List.sum_cons, List.map_cons, dot_cons, this]
+      simp only [] at h0
+      linarith
+
 /-! ### intercept and normal equations -/
 
 theorem dot_residual (b : α) (r y a : List α) (h : y.length = a.length) (hr : r.length = y.length) :
@@ -486,7 +530,7 @@ def CdInv (C : List (List α)) (y : List α) (st : CdState α) : Prop :=
 
 theorem cdCoord_inv (contig : Bool) (thr denAdd : α) (C : List (List α)) (y : List α) (st : CdState α)
     (j : Nat) (cj : List α) (nrm : α) (hC : ∀ c ∈ C, c.length = y.length) (hcj : C[j]? = some cj)
-    (h : CdInv C y st) : CdInv C y (cdCoord contig 0 thr denAdd st j cj nrm) := by
+    (h : CdInv C y st) : CdInv C y (cdCoord contig thr denAdd st j cj nrm) := by
   obtain ⟨hr, hw⟩ := h
   unfold cdCoord
   split
@@ -511,7 +555,7 @@ theorem cdCoord_inv (contig : Bool) (thr denAdd : α) (C : List (List α)) (y : 
 theorem cdSweepGo_inv (contig : Bool) (thr denAdd : α) (C : List (List α)) (y : List α)
     (hC : ∀ c ∈ C, c.length = y.length) (Cr : List (List α)) :
     ∀ (j : Nat) (ns : List α) (st : CdState α), (∀ k, Cr[k]? = C[j + k]?) → CdInv C y st →
-      CdInv C y (cdSweepGo contig 0 thr denAdd j Cr ns st) := by
+      CdInv C y (cdSweepGo contig thr denAdd j Cr ns st) := by
   induction Cr with
   | nil => intro j ns st _ h; simpa [cdSweepGo] using h
   | cons c Cr ih =>
@@ -529,11 +573,11 @@ theorem cdSweepGo_inv (contig : Bool) (thr denAdd : α) (C : List (List α)) (y 
         have := hk 0
         simpa using this.symm
 
-theorem cdLoop_certificate (contig : Bool) (thr denAdd : α) (C : List (List α)) (norms y : List α)
+theorem cdLoop_certificate (contig : Bool) (eps thr denAdd : α) (C : List (List α)) (norms y : List α)
     (n tol tolS l1r pen : α) (maxSteps : Nat) (hC : ∀ c ∈ C, c.length = y.length) :
     ∀ (fuel steps : Nat) (w r : List α) (gap : α) (w' : List α) (g' : α) (s' : Nat),
       r = residual C y w 0 → w.length = C.length →
-      cdLoop contig 0 thr denAdd C norms y n tol tolS l1r pen maxSteps fuel steps w r gap = (w', g', s') →
+      cdLoop contig eps thr denAdd C norms y n tol tolS l1r pen maxSteps fuel steps w r gap = (w', g', s') →
       w'.length = C.length ∧ s' ≤ steps + fuel ∧
         (s' < steps + fuel → g' = dualityGap contig C y w' (residual C y w' 0) l1r pen n ∧ g' < tolS) := by
   intro fuel
@@ -545,11 +589,11 @@ theorem cdLoop_certificate (contig : Bool) (thr denAdd : α) (C : List (List α)
     exact ⟨hw, le_refl _, fun h => absurd h (lt_irrefl _)⟩
   | succ fuel ih =>
     intro steps w r gap w' g' s' hr hw h
-    have hinv : CdInv C y (cdSweep contig 0 thr denAdd C norms w r) := by
+    have hinv : CdInv C y (cdSweep contig thr denAdd C norms w r) := by
       unfold cdSweep
       exact cdSweepGo_inv contig thr denAdd C y hC C 0 norms _ (fun k => by simp) ⟨hr, hw⟩
     simp only [cdLoop] at h
-    generalize cdSweep contig 0 thr denAdd C norms w r = st at hinv h
+    generalize cdSweep contig thr denAdd C norms w r = st at hinv h
     obtain ⟨hsr, hsw⟩ := hinv
     split at h
     · split at h
